@@ -21,6 +21,8 @@
 (*   value   f(x)                                                          *)
 (*   rel     a named relation lhs >= rhs / lhs = rhs between observed      *)
 (*           numbers (objects outside the catalogue)                       *)
+(*   outside an indicator evaluated at b + 2^-k d, a whole ray outside its set *)
+(*   numgrad gradient of a functional whose .gradient is NumericalGradient     *)
 (*   lin     f.is_linear together with f(x), f(y), f(x+y), f(2x), f(0)     *)
 (* The specification is TOTAL: a rejected event prints                     *)
 (*   <<"FAIL", line, id, clauses>>   and validation continues.             *)
@@ -140,6 +142,23 @@ LinClauses(e) ==
        (IF e.opaque = 0 /\ LinearRefutedAt(e.sp, e.f, e.x, e.y)
           THEN {"is_linear-refuted-by-specification"} ELSE {})
 
+\* an indicator asked at b + 2^-k d (exactly representable): +inf whenever the whole ray is outside the set
+OutsideClauses(e) ==
+  IF e.fin = 1 /\ OutsideRay(e.sp, e.f, e.b, e.d) THEN {"indicator-finite-outside-the-set"} ELSE {}
+
+\* a functional whose gradient is NumericalGradient(f, method, step), possibly under a rule:
+\* rule "none" | "Translate" (u) | "LScale" (s) | "Sum" (second program g, same method and step)
+NumGradClauses(e) ==
+  LET base(x) == NumGrad(e.sp, e.f, x, e.m, e.h)
+      exp == CASE e.rule = "none"      -> base(e.x)
+               [] e.rule = "Translate" -> base(RSub(e.x, e.u))
+               [] e.rule = "LScale"    -> LET g == base(e.x) IN
+                                          [i \in 1..Len(g) |-> IF XKnown(g[i]) THEN QMul(e.s, g[i]) ELSE NaN]
+               [] e.rule = "Sum"       -> LET g == base(e.x)  g2 == NumGrad(e.sp, e.g, e.x, e.m, e.h) IN
+                                          [i \in 1..Len(g) |-> IF XKnown(g[i]) /\ XKnown(g2[i]) THEN QAdd(g[i], g2[i]) ELSE NaN]
+  IN IF \E i \in 1..Len(e.grad) : XKnown(exp[i]) /\ e.grad[i] # NaN /\ e.grad[i] # exp[i]
+       THEN {"numerical-gradient"} ELSE {}
+
 ValueClauses(e) ==
   IF e.fx # NaN /\ ValueBad(e.fx, QValue(Entry(e.sp, e.f, 0), e.x)) THEN {"value"} ELSE {}
 
@@ -155,6 +174,8 @@ Clauses(e) ==
     [] e.k = "cdrel"  -> CdClauses(e)
     [] e.k = "value"  -> ValueClauses(e)
     [] e.k = "rel"    -> RelClauses(e)
+    [] e.k = "outside" -> OutsideClauses(e)
+    [] e.k = "numgrad" -> NumGradClauses(e)
     [] e.k = "lin"    -> LinClauses(e)
     [] OTHER -> {"unknown-event-kind"}
 
